@@ -119,7 +119,7 @@ def run(ctx, only=None):
 
 def search(ctx, result):
     cs = chart_cases(dict(ctx, tier="thorough"), 200)
-    ls = line_cases(ctx, 9000)
+    ls = [lg.dec_case(k, w, ["regex_diff_witness"]) for w in regex_witnesses() for k in KS] + line_cases(ctx, 9000)
     r = merge([run_cases("C08ls", ls, lg.DEC_IN, lg.DEC_OUT, lg.DEC_VERDICT, lg.DEC_SPEC, shard_size=400),
                run_cases("C08cs", cs, C_IN, PARSE_OUT, C_VERDICT, C_SPEC, shard_size=10)])
     return dict(viol=r["viol"], evaluations=r["evaluations"], note="re-sampled %d cases" % r["evaluations"])
